@@ -188,7 +188,26 @@ func c05Header(st *types.Stat) []byte {
 
 type digester interface{ Digest() digest.Digest }
 
-// input: (differ mode order ((stat content)...)A ((stat content)...)B)
+// c05Filter: the receiver's Filter (ReceiveOpt.Filter: handed to the differ AND to the
+// DiskWriter), selectable by code (mirrors Glue.RecvG.wf_of): 0 none; 1 umask 022; 2 ownership
+// reset to 7:8; 3 umask 027 + mtime truncated to whole seconds.
+func c05Filter(code int) fsutil.FilterFunc {
+	switch code {
+	case 1:
+		return func(p string, s *types.Stat) bool { s.Mode &^= 0022; return true }
+	case 2:
+		return func(p string, s *types.Stat) bool { s.Uid, s.Gid = 7, 8; return true }
+	case 3:
+		return func(p string, s *types.Stat) bool {
+			s.Mode &^= 0027
+			s.ModTime -= s.ModTime % 1e9
+			return true
+		}
+	}
+	return nil
+}
+
+// input: (differ mode order ((stat content)...)A ((stat content)...)B [filter])
 //
 //	mode 0 = fresh (destination walked), 1 = merge (empty destination walker)
 //	order 0 = contents served as soon as requested; k>0 = all contents held back until the
@@ -222,6 +241,10 @@ func runRecvAbs(in Sx) (out Sx) {
 func recvAbs(ctx context.Context, in Sx) Sx {
 	differ, mode, order := in.L[0].Int(), in.L[1].Int(), in.L[2].U64()
 	A, Bl := sxEntries(in.L[3]), sxEntries(in.L[4])
+	filter := 0
+	if len(in.L) > 5 {
+		filter = in.L[5].Int()
+	}
 	work := WorkDir("c05-")
 	defer os.RemoveAll(work)
 	dest := filepath.Join(work, "d")
@@ -260,7 +283,7 @@ func recvAbs(ctx context.Context, in Sx) Sx {
 	if mode == 0 {
 		lower = walked
 	}
-	reqs, notifs, failed, hang := c05Sync(ctx, dest, lower, listB, contentB, differ, order)
+	reqs, notifs, failed, hang := c05Sync(ctx, dest, lower, listB, contentB, differ, order, c05Filter(filter))
 	if hang != "" {
 		return L(N(0xffff), S(hang))
 	}
@@ -300,7 +323,7 @@ func recvAbs(ctx context.Context, in Sx) Sx {
 // contentB at once (order 0) or held back and completed in the order-th pseudo-random order.
 // Returns the content requests (path order), the notifications in the order observed, whether
 // the transfer failed, and a non-empty string when the real code hung.
-func c05Sync(ctx context.Context, dest string, lower, listB []*types.Stat, contentB map[string][]byte, differ int, order uint64) (reqs []string, notifs []Sx, failed bool, hang string) {
+func c05Sync(ctx context.Context, dest string, lower, listB []*types.Stat, contentB map[string][]byte, differ int, order uint64, filter fsutil.FilterFunc) (reqs []string, notifs []Sx, failed bool, hang string) {
 	var mu sync.Mutex
 	gated := order > 0
 	gates := map[string]chan struct{}{}
@@ -310,6 +333,7 @@ func c05Sync(ctx context.Context, dest string, lower, listB []*types.Stat, conte
 	dctx, dcancel := context.WithCancel(ctx)
 	defer dcancel()
 	dw, err := fsutil.NewDiskWriter(dctx, dest, fsutil.DiskWriterOpt{
+		Filter: filter,
 		AsyncDataCb: func(ctx context.Context, p string, wc io.WriteCloser) error {
 			mu.Lock()
 			reqs = append(reqs, p)
@@ -373,7 +397,7 @@ func c05Sync(ctx context.Context, dest string, lower, listB []*types.Stat, conte
 		return nil, nil, true, "diskwriter"
 	}
 	expected := 0
-	derr := fsutil.VerifDoubleWalkDiff(dctx, lower, listB, nil, fsutil.DiffType(differ),
+	derr := fsutil.VerifDoubleWalkDiff(dctx, lower, listB, filter, fsutil.DiffType(differ),
 		func(k fsutil.ChangeKind, p string, fi os.FileInfo, err error) error {
 			e := dw.HandleChange(k, p, fi, err)
 			if e == nil && k != fsutil.ChangeKindDelete {
@@ -498,7 +522,7 @@ func c02Resync(ctx context.Context, in Sx) Sx {
 	if err != nil {
 		return L(N(0xffff), S("walk: "+err.Error()))
 	}
-	_, _, failed1, hang := c05Sync(ctx, dest, w1, listB, contentB, differ, order)
+	_, _, failed1, hang := c05Sync(ctx, dest, w1, listB, contentB, differ, order, nil)
 	if hang != "" {
 		return L(N(0xffff), S(hang))
 	}
@@ -509,7 +533,7 @@ func c02Resync(ctx context.Context, in Sx) Sx {
 	if err != nil {
 		return L(N(0xffff), S("walk 2: "+err.Error()))
 	}
-	reqs2, notifs2, failed2, hang := c05Sync(ctx, dest, w2, listB, contentB, 0, order)
+	reqs2, notifs2, failed2, hang := c05Sync(ctx, dest, w2, listB, contentB, 0, order, nil)
 	if hang != "" {
 		return L(N(0xffff), S(hang))
 	}
@@ -535,6 +559,39 @@ func fixSizes(es []flatEntry) {
 			e.St.Size = int64(len(e.Content)) // later member of a link group: full size, as the real walker reports it
 		default:
 			e.St.Size = 0
+		}
+	}
+}
+
+func c05StripX(ns []*MNode) {
+	for _, n := range ns {
+		n.Stat.Xattrs = nil
+		c05StripX(n.Kids)
+	}
+}
+
+// c05FixLinks: a hard-link entry must name an earlier regular non-link entry that still exists,
+// and carries its metadata and content (one inode)
+func c05FixLinks(es []flatEntry) {
+	ok := map[string]*flatEntry{}
+	for i := range es {
+		e := &es[i]
+		if os.FileMode(e.St.Mode)&os.ModeType != 0 {
+			continue
+		}
+		if e.St.Linkname == "" {
+			ok[e.St.Path] = e
+			continue
+		}
+		if t, found := ok[e.St.Linkname]; found {
+			p := e.St.Path
+			ln := e.St.Linkname
+			e.St = t.St.CloneVT()
+			e.St.Path, e.St.Linkname = p, ln
+			e.Content = t.Content
+		} else {
+			e.St.Linkname = ""
+			ok[e.St.Path] = e
 		}
 	}
 }
@@ -568,46 +625,11 @@ func genRecvCases(g *Gen, kind uint64, n int, directedRelink bool) {
 			va = nil
 			cls = "from-empty"
 		}
-		stripX := func(ns []*MNode) {
-			var rec func(ns []*MNode)
-			rec = func(ns []*MNode) {
-				for _, n := range ns {
-					n.Stat.Xattrs = nil
-					rec(n.Kids)
-				}
-			}
-			rec(ns)
-		}
-		stripX(va)
-		stripX(vb)
+		c05StripX(va)
+		c05StripX(vb)
 		A, Bl := flattenView(va), flattenView(vb)
-		fixLinks := func(es []flatEntry) {
-			// a hard-link entry must name an earlier regular non-link entry that still exists
-			ok := map[string]*flatEntry{}
-			for i := range es {
-				e := &es[i]
-				if os.FileMode(e.St.Mode)&os.ModeType != 0 {
-					continue
-				}
-				if e.St.Linkname == "" {
-					ok[e.St.Path] = e
-					continue
-				}
-				if t, found := ok[e.St.Linkname]; found {
-					// same inode: same metadata and content
-					p := e.St.Path
-					ln := e.St.Linkname
-					e.St = t.St.CloneVT()
-					e.St.Path, e.St.Linkname = p, ln
-					e.Content = t.Content
-				} else {
-					e.St.Linkname = ""
-					ok[e.St.Path] = e
-				}
-			}
-		}
-		fixLinks(A)
-		fixLinks(Bl)
+		c05FixLinks(A)
+		c05FixLinks(Bl)
 		fixSizes(A)
 		fixSizes(Bl)
 		if directedRelink && r.Chance(6) {
@@ -651,9 +673,18 @@ func genRecvCases(g *Gen, kind uint64, n int, directedRelink bool) {
 		if r.Chance(3) {
 			// directed: a hard-link entry naming a missing path or a directory: os.Link fails,
 			// HandleChange returns an error (model: apply_map = None)
+			// (not a path that holds a symbolic link, device or fifo in the old destination: os.Link
+			// would succeed on those and give that special inode a second name — outside the model,
+			// see Model/AbsDest.v)
+			special := map[string]bool{}
+			for _, e := range A {
+				if m := os.FileMode(e.St.Mode); m&(os.ModeSymlink|os.ModeDevice|os.ModeNamedPipe|os.ModeSocket) != 0 {
+					special[e.St.Path] = true
+				}
+			}
 			var dirs []string
 			for _, e := range Bl {
-				if os.FileMode(e.St.Mode).IsDir() {
+				if os.FileMode(e.St.Mode).IsDir() && !special[e.St.Path] {
 					dirs = append(dirs, e.St.Path)
 				}
 			}
@@ -686,6 +717,12 @@ func genRecvCases(g *Gen, kind uint64, n int, directedRelink bool) {
 			continue
 		}
 		in := L(NI(differ), NI(mode), N(order), entriesSx(A), entriesSx(Bl))
+		if kind == 0x0501 && r.Chance(25) {
+			// the receiver's Filter (differ + DiskWriter): the disk gets the rewritten stat, the
+			// notification and the hashed header keep the stat as sent
+			in = L(NI(differ), NI(mode), N(order), entriesSx(A), entriesSx(Bl), NI(1+r.Intn(3)))
+			cls += "+filter"
+		}
 		out := runRecvAbs(in)
 		if len(out.L) == 2 && out.L[0].Kind == 'n' && out.L[0].U64() == 0xfffe {
 			skipped++ // the listing could not be materialised (generator artefact)
@@ -702,9 +739,16 @@ func genRecvCases(g *Gen, kind uint64, n int, directedRelink bool) {
 
 // c05EmitCase runs one explicit case and emits it (same nontriviality rule as genRecvCases).
 func c05EmitCase(g *Gen, kind uint64, differ, mode int, order uint64, A, Bl []flatEntry, cls string) bool {
+	return c05EmitCaseF(g, kind, differ, mode, order, 0, A, Bl, cls)
+}
+
+func c05EmitCaseF(g *Gen, kind uint64, differ, mode int, order uint64, filter int, A, Bl []flatEntry, cls string) bool {
 	fixSizes(A)
 	fixSizes(Bl)
 	in := L(NI(differ), NI(mode), N(order), entriesSx(A), entriesSx(Bl))
+	if filter != 0 {
+		in = L(NI(differ), NI(mode), N(order), entriesSx(A), entriesSx(Bl), NI(filter))
+	}
 	out := runRecvAbs(in)
 	if len(out.L) == 2 && out.L[0].Kind == 'n' && out.L[0].U64() == 0xfffe {
 		return false
@@ -983,7 +1027,68 @@ func c02ResyncDirected(g *Gen) {
 	g.Note("resync_directed_cases", n)
 }
 
+// c05Filtered: directed histories for the receiver's Filter: the destination already holds the
+// directories (and files) of the source, whose metadata was edited at the source (a pure
+// metadata change of a kept directory: the in-place branch of HandleChange), or the transfer
+// runs in merge mode (every entry an add over what is there), with every filter.  The
+// notification and its digest must carry the stat AS SENT, the disk the filtered one.
+func c05Filtered(g *Gen) {
+	r := g.Rng
+	n := 0
+	base := func() []flatEntry {
+		return []flatEntry{
+			{&types.Stat{Path: "d", Mode: uint32(os.ModeDir | 0777), Uid: 1, Gid: 2, ModTime: 1700000000e9}, nil},
+			{&types.Stat{Path: "d/f", Mode: 0666, Uid: 1, Gid: 2, ModTime: 1600000001_500000000}, []byte("ff")},
+			{&types.Stat{Path: "d/s", Mode: uint32(os.ModeDir | 0775), Uid: 3, ModTime: 1700000001e9}, nil},
+			{&types.Stat{Path: "d/s/g", Mode: 0664, ModTime: 1600000002_250000000}, []byte("g")},
+			{&types.Stat{Path: "e", Mode: uint32(os.ModeDir | 0755), ModTime: 1700000002e9}, nil},
+			{&types.Stat{Path: "k", Mode: 0644, ModTime: 1600000003e9}, []byte("keep")},
+		}
+	}
+	clone := func(es []flatEntry) []flatEntry {
+		out := make([]flatEntry, len(es))
+		for i, e := range es {
+			out[i] = flatEntry{e.St.CloneVT(), e.Content}
+		}
+		return out
+	}
+	for filter := 0; filter <= 3; filter++ {
+		for edit := 0; edit < 5; edit++ {
+			for mode := 0; mode < 2; mode++ {
+				A, Bl := base(), clone(base())
+				switch edit {
+				case 0: // directory mode edited at the source
+					Bl[0].St.Mode ^= 0050
+				case 1: // directory owner
+					Bl[2].St.Uid += 4
+					Bl[2].St.Gid += 5
+				case 2: // both directories and a file
+					Bl[0].St.Gid += 1
+					Bl[4].St.Mode ^= 0700
+					Bl[1].St.ModTime += 7_000000001
+				case 3: // nothing edited (merge: every entry is an add over what is there)
+				case 4: // the destination lacks one of the directories
+					A = append(A[:2:2], A[4:]...)
+				}
+				order := uint64(0)
+				if r.Bool() {
+					order = 1 + uint64(r.Intn(1000))
+				}
+				cls := fmt.Sprintf("directed-filter%d-kept-dirs", filter)
+				if mode == 1 {
+					cls += "-merge"
+				}
+				if c05EmitCaseF(g, 0x0501, 0, mode, order, filter, A, Bl, cls) {
+					n++
+				}
+			}
+		}
+	}
+	g.Note("directed_filter_cases", n)
+}
+
 func genC05(g *Gen) {
+	c05Filtered(g)
 	c05DirReplaced(g)
 	c05LinkMeta(g, 0x0501)
 	genRecvCases(g, 0x0501, g.Vol(700, 12000), true)
